@@ -149,7 +149,14 @@ def check_case(rec, case):
             _CUR['premise'] = True
             accepted = set()
             ok = True
-            for w in fa.words_upto(Sigma, nmax):
+            if case.get('oracle_language') and round_ == 0:
+                # alphabets too large for 'all words up to n': the reference model gives the language, the acceptance test is
+                # asked for its members and for near misses only
+                Lref = set(cf.language_upto(R, nmax))
+                cand = sorted(Lref) + [w[:-1] for w in sorted(Lref) if w] + [w + w[-1:] for w in sorted(Lref) if len(w) < nmax]
+            else:
+                cand = fa.words_upto(Sigma, nmax)
+            for w in cand:
                 o = call(acc, w, _cpu=10)
                 if o.kind == 'timeout':
                     rec.inconc('acceptance test exceeded the CPU guard')
@@ -164,6 +171,10 @@ def check_case(rec, case):
             if not ok:
                 rec.note_case(case, case['cls'], False)
                 return
+            if case.get('oracle_language') and round_ == 0:
+                if accepted != Lref:
+                    rec.inconc('acceptance test and reference language differ (judged under C07)')
+                    break
             acc_premise = _CUR['premise']
             exact = None
             for n in ns:
@@ -278,6 +289,21 @@ def gen_cases(rec, rng, tier):
     if rec.shard == 3:
         for (name, RP, eps) in pdag.shipped_pdas(env.REPO):
             yield {'kind': 'pda', 'cls': 'shipped_' + name, 'ref': RP, 'ns': [0, 1, 2, 3, 4], 'limit': 1000, 'eps': eps}
+    # grammars over many terminals with long rules: the normal form needs more than 26 variables (numbered helper names)
+    for _ in range(12 if thorough else 2):
+        if rec.shard % 4 != 3:
+            break
+        letters = list('abcdefghijklmnopqrstuvwxyz')
+        rng.shuffle(letters)
+        alts = []
+        i = 0
+        while i < len(letters) - 3 and len(alts) < rng.randint(8, 11):
+            L_ = rng.choice([2, 3, 3, 4])
+            alts.append(tuple(('T', x) for x in letters[i:i + L_]))
+            i += L_
+        used = sorted({x for alt in alts for (_, x) in alt})
+        RGm = cf.make(['S'], used, [('S', alt) for alt in alts], 'S')
+        yield {'kind': 'cfg', 'cls': 'many_terminals_long_rules', 'ref': RGm, 'ns': [0, 2, 3, 4], 'oracle_language': True}
     # seeded random
     for _ in range(60 if thorough else 20):
         n = rng.randint(1, 6)
